@@ -53,6 +53,8 @@ def normalised(prog: Program) -> Program:
     prog = _merge_new_modules(prog)
     prog = _closures_for_callable_classes(prog)
     prog = _closures_for_partials(prog)
+    prog = _inline_new_properties(prog)
+    prog = _desugar_singledispatch(prog)
     prog = canonical(prog, known_globals())
     prog = _flatten_mixins(prog)
     new = new_functions(prog)
@@ -256,6 +258,148 @@ def _closures_for_callable_classes(prog: Program) -> Program:
                     i += 1
             block(fn.body)
         trees[rel] = tree
+    if not changed:
+        return prog
+    return Program(prog.repo, prog.pkg, overrides=prog.overrides, tree_overrides=trees)
+
+
+
+def _inline_new_properties(prog: Program) -> Program:
+    """A NEW private read-only property whose body is `return E` (E an expression over `self` without calls of its own methods that
+    could re-enter) is an abbreviation: `self._p` inside the methods of the same class is E.  The reads are replaced by E (evaluated
+    where the property was read, as the property did); the property definition stays."""
+    import copy
+    known = anchors()
+    trees = dict(prog.tree_overrides)
+    changed = False
+    for m in prog.modules.values():
+        tree = None
+        for ci in [c for c in prog.classes.values() if c.module is m and c.outer is None]:
+            props = {}
+            for name, f in ci.methods.items():
+                if f.qualname in known or f.kind != 'property' or not name.startswith('_') or name.startswith('__'):
+                    continue
+                if any(g.name == name and g.kind == 'setter' for g in ci.methods.values()):
+                    continue
+                body = [st for st in f.node.body if not (isinstance(st, ast.Expr) and isinstance(st.value, ast.Constant))]
+                if len(body) != 1 or not isinstance(body[0], ast.Return) or body[0].value is None or not f.node.args.args:
+                    continue
+                me = f.node.args.args[0].arg
+                e = body[0].value
+                if any(isinstance(y, (ast.Yield, ast.YieldFrom, ast.Await, ast.NamedExpr, ast.Lambda)) for y in ast.walk(e)):
+                    continue
+                if any(isinstance(y, ast.Attribute) and y.attr == name for y in ast.walk(e)):
+                    continue
+                # a subclass overriding the property would make the read dynamic
+                if any(name in sc.methods for sc in prog.subclasses(ci, strict=True)):
+                    continue
+                props[name] = (me, e)
+            if not props:
+                continue
+            if tree is None:
+                tree = copy.deepcopy(trees.get(m.rel, m.tree))
+            cnode = next((x for x in ast.walk(tree) if isinstance(x, ast.ClassDef) and x.name == ci.name and x.lineno == ci.node.lineno), None)
+            if cnode is None:
+                continue
+            for fn in [x for x in cnode.body if isinstance(x, (ast.FunctionDef, ast.AsyncFunctionDef))]:
+                if not fn.args.args or fn.name in props:
+                    continue
+                recv = fn.args.args[0].arg
+                if any(isinstance(d, ast.Name) and d.id == 'staticmethod' for d in fn.decorator_list):
+                    continue
+
+                class _P(ast.NodeTransformer):
+                    def visit_Attribute(self_, x):      # noqa: N805
+                        self_.generic_visit(x)
+                        if isinstance(x.ctx, ast.Load) and isinstance(x.value, ast.Name) and x.value.id == recv and x.attr in props:
+                            me_, e_ = props[x.attr]
+                            new = copy.deepcopy(e_)
+                            for y in ast.walk(new):
+                                if isinstance(y, ast.Name) and y.id == me_:
+                                    y.id = recv
+                            nonlocal_changed.append(1)
+                            return ast.copy_location(new, x)
+                        return x
+                nonlocal_changed: List[int] = []
+                _P().visit(fn)
+                if nonlocal_changed:
+                    changed = True
+        if tree is not None and changed:
+            ast.fix_missing_locations(tree)
+            trees[m.rel] = tree
+    if not changed:
+        return prog
+    return Program(prog.repo, prog.pkg, overrides=prog.overrides, tree_overrides=trees)
+
+
+
+_UNRELATED_BUILTINS = ('str', 'bytes', 'list', 'tuple', 'dict', 'set', 'frozenset', 'float', 'NoneType')
+
+
+def _desugar_singledispatch(prog: Program) -> Program:
+    """A NEW module-level `@functools.singledispatch` function whose registrations are `@F.register(T)` on new module-level functions
+    of the same arity, for pairwise unrelated classes (None's type and builtin container / text types, whose subclass relations are
+    known), selects the implementation by the class of the first argument — that is an isinstance chain in front of the default body.
+    The decorators are dropped and the chain written out, so that the ordinary helper inlining sees plain functions."""
+    import copy
+    known = anchors()
+    trees = dict(prog.tree_overrides)
+    changed = False
+    for m in prog.modules.values():
+        gens = [st for st in m.tree.body if isinstance(st, ast.FunctionDef) and
+                any((dotted(d) or '').rsplit('.', 1)[-1] == 'singledispatch' for d in st.decorator_list)]
+        gens = [g for g in gens if f'{m.name}.{g.name}' not in known and len(g.decorator_list) == 1]
+        if not gens:
+            continue
+        tree = copy.deepcopy(trees.get(m.rel, m.tree))
+        for g0 in gens:
+            g = next(st for st in tree.body if isinstance(st, ast.FunctionDef) and st.name == g0.name)
+            if g.args.vararg or g.args.kwarg or g.args.kwonlyargs or g.args.posonlyargs or not g.args.args:
+                continue
+            params = [a.arg for a in g.args.args]
+            regs = []
+            ok = True
+            for st in tree.body:
+                if not isinstance(st, ast.FunctionDef) or st is g:
+                    continue
+                for d in st.decorator_list:
+                    if isinstance(d, ast.Call) and isinstance(d.func, ast.Attribute) and d.func.attr == 'register' and dotted(d.func.value) == g.name:
+                        if len(st.decorator_list) != 1 or len(d.args) != 1 or d.keywords or f'{m.name}.{st.name}' in known or \
+                                [a.arg for a in st.args.args] and len(st.args.args) != len(params) or st.args.vararg or st.args.kwarg or st.args.kwonlyargs:
+                            ok = False
+                            break
+                        t = d.args[0]
+                        if isinstance(t, ast.Call) and dotted(t.func) == 'type' and len(t.args) == 1 and isinstance(t.args[0], ast.Constant) and t.args[0].value is None:
+                            regs.append((st, 'NoneType', t))
+                        elif isinstance(t, ast.Name) and t.id in _UNRELATED_BUILTINS:
+                            regs.append((st, t.id, t))
+                        else:
+                            ok = False
+                    elif isinstance(d, ast.Attribute) and d.attr == 'register' and dotted(d.value) == g.name:
+                        ok = False      # annotation-driven registration: not read
+            # any other use of the generic function object (F.register elsewhere, F.dispatch, F.registry) keeps it as it is
+            for x in ast.walk(tree):
+                if isinstance(x, ast.Attribute) and isinstance(x.value, ast.Name) and x.value.id == g.name and \
+                        not any(x is d.func for st, _, _ in regs for d in st.decorator_list if isinstance(d, ast.Call)):
+                    ok = False
+            if not ok or not regs or len({k for _, k, _ in regs}) != len(regs):
+                continue
+            first = params[0]
+            chain: List[ast.stmt] = []
+            for st, kind, t in regs:
+                if kind == 'NoneType':
+                    test: ast.expr = ast.Compare(left=ast.Name(id=first, ctx=ast.Load()), ops=[ast.Is()], comparators=[ast.Constant(value=None)])
+                else:
+                    test = ast.Call(func=ast.Name(id='isinstance', ctx=ast.Load()), args=[ast.Name(id=first, ctx=ast.Load()), ast.Name(id=kind, ctx=ast.Load())], keywords=[])
+                call = ast.Call(func=ast.Name(id=st.name, ctx=ast.Load()), args=[ast.Name(id=p_, ctx=ast.Load()) for p_ in params], keywords=[])
+                chain.append(ast.If(test=test, body=[ast.Return(value=call)], orelse=[]))
+                st.decorator_list = []
+            doc = [g.body[0]] if g.body and isinstance(g.body[0], ast.Expr) and isinstance(g.body[0].value, ast.Constant) else []
+            g.body = doc + [ast.copy_location(c_, g) for c_ in chain] + g.body[len(doc):]
+            g.decorator_list = []
+            changed = True
+            ast.fix_missing_locations(tree)
+            trees[m.rel] = tree
     if not changed:
         return prog
     return Program(prog.repo, prog.pkg, overrides=prog.overrides, tree_overrides=trees)
